@@ -243,4 +243,21 @@ theorem no_instance_requested_twice (s : BS) (h : s.Inv) (h0 : s.index = 0) (fue
     ((level s fuel).flatMap expand).Nodup := by
   rw [level_tiles s h h0 fuel hf]; exact List.nodup_range' 1
 
+
+/-- the first level (chunk = N) tiles 1..N -/
+theorem first_level_tiles (n : Nat) (s : BS) (h : BS.create n = some s) (fuel : Nat) (hf : n ≤ fuel) :
+    (level s fuel).flatMap expand = List.range' 1 n := by
+  unfold BS.create at h
+  split at h
+  · cases h
+  · cases h
+    exact level_tiles ⟨0, n, n⟩ (by simp [BS.Inv]; omega) rfl fuel hf
+
+/-- every later level does too: when `advance` wraps to a finer granularity, the level it starts tiles the same 1..N -/
+theorem next_level_tiles (s t : BS) (h : s.Inv) (ha : s.advance = some t) (h0 : t.index = 0) (fuel : Nat)
+    (hf : s.instances ≤ fuel) : (level t fuel).flatMap expand = List.range' 1 s.instances := by
+  obtain ⟨hti, hinst, _⟩ := BS.advance_inv h ha
+  rw [← hinst]
+  exact level_tiles t hti h0 fuel (by omega)
+
 end Cvise.C15
